@@ -54,6 +54,9 @@ UTypes ==
             boom |-> FD(S, <<>>),
             many |-> FD(S, <<>>),
             half |-> FD(S, <<>>),
+            nest |-> FD(S, <<>>),
+            wrong |-> FD(I, <<>>),
+            flags |-> FD(ListOf(B), <<>>),
             tag  |-> FD(S, <<AD("s", S)>>) ] ],
     B |->
       [ kind |-> "OBJECT", ifaces |-> <<"Named">>, members |-> <<>>,
@@ -83,9 +86,11 @@ UData ==
              need  |-> V("echo", 0), obj |-> V("echo", 0) ],
     m  |-> [ set |-> V("echo", 0), a |-> NodeV("a2") ],
     a1 |-> [ name |-> StrV("a1"), n |-> IntV(1), peer |-> NodeV("b1"), self |-> NodeV("a1"),
-             kids |-> ListV(<<NodeV("a2")>>), boom |-> ErrV("boom fails"), many |-> V("errs", 2), half |-> V("errval", "part"), tag |-> V("echo", 0) ],
+             kids |-> ListV(<<NodeV("a2")>>), boom |-> ErrV("boom fails"), many |-> V("errs", 2), half |-> V("errval", "part"), nest |-> V("errsn", 2),
+             wrong |-> StrV("n/a"), flags |-> ListV(<<BoolV(TRUE), StrV("maybe"), NullV, BoolV(FALSE)>>), tag |-> V("echo", 0) ],
     a2 |-> [ name |-> StrV("a2"), n |-> IntV(2), peer |-> NodeV("b1"), self |-> NodeV("a2"),
-             kids |-> ListV(<<>>), boom |-> ErrV("boom fails"), many |-> V("errs", 3), half |-> V("errval", "part"), tag |-> V("echo", 0) ],
+             kids |-> ListV(<<>>), boom |-> ErrV("boom fails"), many |-> V("errs", 3), half |-> V("errval", "part"), nest |-> V("errsn", 1),
+             wrong |-> StrV("n/a"), flags |-> ListV(<<>>), tag |-> V("echo", 0) ],
     b1 |-> [ name |-> StrV("b1"), flag |-> BoolV(TRUE), peer |-> NodeV("a1") ] ]
 
 UExec == [ types |-> UTypes, nodeType |-> UNodeType, data |-> UData,
